@@ -31,8 +31,14 @@ EXTRA = {
            + T("QueryProofs", "C10_order_independent"),
     "C19": T("SelectionProofs", "C19_header_first_value C19_later_duplicate_ignored C19_first_date C19_first_token C19_first_authorization "
                                 "C19_last_param_wins C19_last_param_wins_header C19_first_query_value C19_url_before_body qget_qmap_extend "
-                                "C19_selection C19_selection_header C19_selection_query C19_query_values_of_request C19_both_carriers_refused"),
-    "C02": T("SoundnessProofs", "model_creq_is_spec C01_accept_implies_signature")
+                                "C19_selection C19_selection_header C19_selection_query C19_query_values_of_request C19_both_carriers_refused")
+           + T("CompletenessProofs", "C19_unique_acceptance"),
+    "C02": T("CompletenessProofs", "C02_spec_signed_accepted C02_accept_iff_spec_signature C02_presented_params_intro spec_path_same_path "
+                                   "canon_path_same_path C11_block_trimall C02_spelling_insensitive_components C02_spelling_insensitive_sts "
+                                   "C02_spelling_insensitive C02_spelling_insensitive_accept C02_presented_params_header_carrier "
+                                   "C02_spelling_insensitive_header_carrier C02_spelling_insensitive_folded_sts C02_spelling_insensitive_folded "
+                                   "C02_reference_signer_accepted C02_reference_signer_accepted_compact C02_no_algorithm_parameter")
+           + T("SoundnessProofs", "model_creq_is_spec C01_accept_implies_signature")
            + T("PathProofs", "C09_model_is_spec C09_spelling_insensitive") + T("QueryProofs", "C10_model_is_spec C10_multiset")
            + T("HeaderProofs", "C11_value_normal_form C11_block_is_spec C11_block_per_name_order C11_block_name_case norm_value_pad norm_value_space_run")
            + T("IsoProofs", "C16_render_roundtrip"),
@@ -49,5 +55,9 @@ EXTRA = {
                            "C14_accept_implies_answer C14_never_accepts_on_error C14_never_accepts_on_error_asked C14_pending_irrelevant "
                            "C14_pending_irrelevant_counts C14_only_asked_answer_matters")
            + T("PipelineProofs", "C13_calls C13_provider_error"),
-    "C05": T("PipelineProofs", "C13_requirements get_auth_parameters_eq"),
+    "C05": T("CompletenessProofs", "C05_reqs_ok_raw C05_accept_implies_requirements C05_violation_refused_403 C05_requirements_pass "
+                                   "C05_requirement_extensional C05_requirement_case_insensitive")
+           + T("PipelineProofs", "C13_requirements get_auth_parameters_eq"),
+    "C11": T("CompletenessProofs", "C11_block_trimall C11_unsigned_no_influence C11_unsigned_no_influence_check C11_signed_injective "
+                                   "C11_signed_value_change C11_signed_value_change_refused"),
 }
